@@ -60,24 +60,18 @@ pub fn reserve_strategy() -> impl Strategy<Value = (u8, u128, u128)> {
 }
 
 pub fn swap_strategy() -> impl Strategy<Value = SwapOp> {
-    (
-        any::<bool>(),
-        any::<bool>(),
-        0u8..8,
-        any::<u32>(),
-        0u8..6,
-        prop_oneof![3 => Just(None), 1 => any::<u16>().prop_map(Some)],
-        prop_oneof![4 => Just(false), 1 => Just(true)],
-    )
-        .prop_map(|(input, add, class, k, limit_mode, ret, new_block)| SwapOp {
+    // flat tuple, no unions (see ops::op_strategy)
+    (any::<bool>(), any::<bool>(), 0u8..8, any::<u32>(), 0u8..6, 0u8..4, any::<u16>(), 0u8..5).prop_map(
+        |(input, add, class, k, limit_mode, r, rk, nb)| SwapOp {
             input,
             add,
             class,
             k,
             limit_mode,
-            ret,
-            new_block,
-        })
+            ret: if r == 3 { Some(rk) } else { None },
+            new_block: nb == 4,
+        },
+    )
 }
 
 pub fn case_strategy(max_swaps: usize) -> impl Strategy<Value = CurveCase> {
